@@ -46,9 +46,11 @@ def check_inputs(ctx, spec, env, objs, label):
     ctx.require(n > 0, f"{label}: inputs were compared")
 
 
-def h_fixed_point(ctx, skeleton, mode, n=2, args=None, edit=None, pair_sample=None):
+def h_fixed_point(ctx, skeleton, mode, n=2, args=None, edit=None, pair_sample=None, values=None):
+    """values: concrete overrides for the initial build (boundary states such as a journey of duration zero, from which
+    an edit then leaves)"""
     spec = M.SKELETONS[skeleton](n, **(args or {}))
-    sym = _sym(spec)
+    sym = {k: v for k, v in _sym(spec).items() if k not in (values or {})}
     if mode == "inputs":
         # durations that are not whole hours / minutes, so that rounding steps inside the computation have something to do
         from fractions import Fraction as F
@@ -59,7 +61,7 @@ def h_fixed_point(ctx, skeleton, mode, n=2, args=None, edit=None, pair_sample=No
                                     ("servers", "lifespan", 0, 100, (1, 10))], strict_lo=("data_storage_duration", "request_duration", "lifespan")))
     if edit:
         sym.update(collect_slots(spec, [edit]))
-    env = M.Env(ctx, symbolic=sym)
+    env = M.Env(ctx, symbolic={k: v for k, v in sym.items() if k not in (values or {})}, values=dict(values or {}))
     objs = M.build(spec, env)
     if edit:
         e = resolve(ctx, env, env, spec, edit, 0)
@@ -268,6 +270,11 @@ def plan(tier, seed):
     p.append(("fixed_point", dict(skeleton="T5", mode="each", args={"type1": "on-premise", "type2": "autoscaling", "fixed1": 4})))
     p.append(("fixed_point", dict(skeleton="T1", mode="each", edit=num("job", "data_stored"))))
     p.append(("fixed_point", dict(skeleton="T9", mode="chain", edit=dict(k="link", obj="job", attr="server", target="srv_alt"))))
+    # edits that leave a boundary state: a journey of duration zero, a job that stored / needed nothing, no traffic at all
+    p.append(("fixed_point", dict(skeleton="T1", mode="each", values={"step.user_time_spent": 0}, edit=num("step", "user_time_spent"))))
+    p.append(("fixed_point", dict(skeleton="T1", mode="each", values={"job.data_stored": 0, "job.ram_needed": 0}, edit=num("job", "data_stored"))))
+    p.append(("fixed_point", dict(skeleton="T1", mode="each", values={"up.starts[0]": 0, "up.starts[1]": 0},
+                                  edit=dict(k="starts", pat="up", n=2, start="2025-01-01T00:00:00"))))
     # after one update carrying several changes whose recomputation chains overlap (order of the merged chain)
     p.append(("fixed_point", dict(skeleton="T4", mode="each", edit=dict(k="group", edits=[num("jobB", "data_transferred"), num("step1", "user_time_spent")]))))
     p.append(("fixed_point", dict(skeleton="T4", mode="each", edit=dict(k="group", edits=[num("step1", "user_time_spent"), num("jobB", "data_transferred")]))))
